@@ -3214,12 +3214,14 @@ def resolve_aligns(items, labels):
 
 def resolve_immediates(items, constants, labels):
     position = 0
+    previous = 0  # position of the item before the current one
     new_items = []
     for item in items:
         d = copy.deepcopy(vars(item))
 
         # skip items without an immediate field
         if 'imm' not in d:
+            previous = position
             position += item.size()
             new_items.append(item)
             continue
@@ -3231,19 +3233,21 @@ def resolve_immediates(items, constants, labels):
 
         # resolve the immediate field
         env = ChainMap(constants, labels)
-        imm = item.imm.eval(position, env, item.line)
-
-        # account for AUIPC "PC based on previous inst" nuance
         if hasattr(item, 'is_auipc_jump') and item.is_auipc_jump:
-            if isinstance(item, CompressedInstruction):
-                imm += 2
-            else:
-                imm += 4
+            # account for AUIPC "PC based on previous inst" nuance: the %lo part has
+            # to be taken of the very offset the AUIPC took its %hi part of, which is
+            # the one seen from the AUIPC (taking %lo of the offset seen from here and
+            # adding 4 afterwards disagrees with that %hi, or leaves the 12-bit range,
+            # whenever the low 12 bits of the offset are 0x800..0x803)
+            imm = item.imm.eval(previous, env, item.line)
+        else:
+            imm = item.imm.eval(position, env, item.line)
 
         d['imm'] = imm
 
         # create the new item using the resolved immediate
         new_item = item.__class__(*d.values())
+        previous = position
         position += new_item.size()
         new_items.append(new_item)
 
